@@ -5,6 +5,8 @@ import (
 	"io"
 	"strings"
 
+	"github.com/go-netty/go-netty"
+
 	"github.com/go-netty/go-netty/internal/vrt"
 )
 
@@ -79,14 +81,23 @@ func ZZ_C04_Delimiter(dl, stripD, frames, carrier, frag int) {
 	if dl == 2 {
 		delim = "\r\n"
 	}
+	if dl == 3 {
+		delim = "--\n" // repeated leading byte: partial matches inside the payload are legal
+	}
 	cdc := DelimiterCodec(16, delim, stripD != 0)
 	var bodies [2][]byte
 	var wire []byte
 	for i := 0; i < frames; i++ {
 		n := vrt.Choose(4)
 		body := vrt.Bytes(n)
-		for j := 0; j < n; j++ { // contract: the payload does not contain delimiter bytes
-			vrt.Assume(body[j] != '\n' && body[j] != '\r')
+		// contract: the delimiter occurs in payload+delimiter only at the very end
+		full := append(append([]byte(nil), body...), delim...)
+		for e := dl; e < len(full); e++ {
+			var diff byte
+			for j := 0; j < dl; j++ {
+				diff |= full[e-dl+j] ^ delim[j]
+			}
+			vrt.Assume(diff != 0)
 		}
 		bodies[i] = body
 		ectx := &zzCtx{}
@@ -256,4 +267,62 @@ func ZZ_C04_Carriers(codecKind, carrier int) {
 	vrt.Assert(int(wire[hdr-1]) == n, "header-matches-body")
 	zzSameBytes(wire[hdr:], snapshot, "framed-body")
 	vrt.Reach("c04-carriers-done")
+}
+
+// ZZ_C04_TwoEncodes: two messages are encoded by the same codec instance and both outputs are kept before either is
+// used (what a buffering outbound handler does): each must still be a frame whose header agrees with its body.
+func ZZ_C04_TwoEncodes(codecKind int) {
+	n1 := vrt.Choose(4)
+	n2 := 100 + vrt.Choose(200) // a different header length class for the varint codec (>= 128 needs two bytes)
+	b1 := vrt.Bytes(n1)
+	b2 := vrt.Bytes(n2)
+	ectx := &zzCtx{}
+	var enc interface {
+		HandleWrite(ctx netty.OutboundContext, message netty.Message)
+	}
+	hdr1, hdr2 := 0, 0
+	switch codecKind {
+	case 0:
+		enc = LengthFieldPrepender(zzOrder(0), 2, 0, false)
+		hdr1, hdr2 = 2, 2
+	case 1:
+		enc = VarintLengthFieldCodec(1024)
+		hdr1, hdr2 = 1, 1
+		if n2 >= 128 {
+			hdr2 = 2
+		}
+	case 2:
+		enc = LengthFieldCodec(zzOrder(1), 1024, 0, 4, 0, 4)
+		hdr1, hdr2 = 4, 4
+	default:
+		enc = DelimiterCodec(1024, "\n", true)
+	}
+	enc.HandleWrite(ectx, b1)
+	enc.HandleWrite(ectx, b2)
+	vrt.Assert(len(ectx.out) == 2, "two-messages-forwarded")
+	w1, ok1 := zzFlatten(ectx.out[0], 512)
+	w2, ok2 := zzFlatten(ectx.out[1], 512)
+	vrt.Assert(ok1 && ok2, "encoder-output-type")
+	if codecKind == 3 {
+		vrt.Assert(len(w1) == n1+1 && len(w2) == n2+1, "retained-wire-length")
+		zzSameBytes(w1[:n1], b1, "retained-body-1")
+		zzSameBytes(w2[:n2], b2, "retained-body-2")
+		vrt.Assert(w1[n1] == '\n' && w2[n2] == '\n', "retained-delimiter")
+	} else {
+		vrt.Assert(len(w1) == hdr1+n1 && len(w2) == hdr2+n2, "retained-wire-length")
+		// header of the first frame still describes the first body
+		v1 := 0
+		switch codecKind {
+		case 0:
+			v1 = int(w1[0])<<8 | int(w1[1])
+		case 1:
+			v1 = int(w1[0])
+		case 2:
+			v1 = int(w1[0]) | int(w1[1])<<8 | int(w1[2])<<16 | int(w1[3])<<24
+		}
+		vrt.Assert(v1 == n1, "retained-header-matches-body")
+		zzSameBytes(w1[hdr1:], b1, "retained-body-1")
+		zzSameBytes(w2[hdr2:], b2, "retained-body-2")
+	}
+	vrt.Reach("c04-two-encodes-done")
 }
